@@ -57,6 +57,7 @@ structure PTask where
   after : List Nat := []
   gen : Bool := false           -- `@task(is_generator=True)`
   fails : Bool := false         -- the body raises before writing anything
+  failsLate : Bool := false     -- the body writes all its products, then raises
   uncollectable : Bool := false -- as a task defined by a generator: `pytask_collect_task_protocol` reports FAIL for it
 deriving Repr, DecidableEq, Inhabited
 
@@ -212,7 +213,7 @@ def runBody (F : BodyFn) (t : PTask) (fs : FS) : FS × Bool :=
   let fs2 := (t.pprods.zipIdx).foldl (fun fs (sl, j) =>
       let n := (match c with | some (some x) => x | _ => sl.pat.len) % (sl.pat.len + 1)
       writeDir F t.id j src ds sl.pat n fs) fs1
-  (fs2, false)
+  (fs2, t.failsLate)
 
 /-- `provisional.pytask_execute_task` for a generator: call it, collect what it defined, re-create the DAG.
 `RuntimeError` when it defined nothing. Returns (session, raised). -/
